@@ -552,49 +552,67 @@ def drive_lifespan(app, script):
 
 
 def run_lifespan_case(case):
+    """One app object, one or more lifespan cycles (every `async with` of a test conductor, every restart of an
+    in-process server runs a fresh lifespan scope against the same app): each cycle is judged on its own."""
     calls = []
+    cycles = case.get('cycles') or [{'script': case['script'], 'faults': case['faults']}]
+    current = {'faults': {}}
 
-    def handler(phase, i, fault):
+    def handler(phase, i):
         async def method(self, scope, event):
             ok = isinstance(scope, dict) and scope.get('type') == 'lifespan' and \
                 isinstance(event, dict) and event.get('type') == 'lifespan.' + phase
             calls.append([phase, i] if ok else [phase, i, 'bad arguments', repr(scope), repr(event)])
+            fault = current['faults'].get((phase, i))
             if fault == 'app_error':
                 raise AppError('generated lifespan fault')
             if fault == 'http_error':
                 raise falcon.HTTPServiceUnavailable()
         return method
 
-    faults = {(f[0], f[1]): f[2] for f in case['faults']}
     comps = []
     for i, c in enumerate(case['comps']):
         ns = {}
         for phase in ('startup', 'shutdown'):
             if c[phase]:
-                ns['process_' + phase] = handler(phase, i, faults.get((phase, i)))
+                ns['process_' + phase] = handler(phase, i)
         if c['http']:
             async def process_request(self, req, resp, _i=i):
                 calls.append(['process_request', _i])
             ns['process_request'] = process_request
         comps.append(type('Lifespan%d' % i, (object,), ns)())
     app = falcon.asgi.App(middleware=comps)
-    sent, error = drive_lifespan(app, case['script'])
-    exp_calls, exp_events = ref_lifespan({'comps': case['comps'], 'script': case['script'],
-                                          'faults': [f[:2] for f in case['faults']]})
-    got_events = [e.get('type') if isinstance(e, dict) else repr(e) for e in sent]
-    if calls != exp_calls or got_events != exp_events or error is not None:
-        raise Violation(
-            'lifespan_sequence',
-            'case=%r\n  handler calls: %r\n  documented:    %r\n  events sent: %r\n  documented:  %r%s'
-            % (case, calls, exp_calls, got_events, exp_events,
-               ('\n  escaped: %r' % (error,)) if error is not None else ''))
     n_handlers = sum(1 for c in case['comps'] if c['startup'] or c['shutdown'])
-    failed = any(e.endswith('.failed') for e in exp_events)
-    labels = ['components:%d' % len(case['comps']), 'script:' + '+'.join(case['script'])]
-    labels.extend(exp_events)
-    if not exp_calls:
-        labels.append('no_handler_called')
-    return Info(n_handlers >= 2 and failed, labels)
+    labels = ['components:%d' % len(case['comps']), 'cycles:%d' % len(cycles)]
+    any_failed = False
+    failed_before = False
+    after_failure = False
+    for k, cyc in enumerate(cycles):
+        del calls[:]
+        current['faults'] = {(f[0], f[1]): f[2] for f in cyc['faults']}
+        sent, error = drive_lifespan(app, cyc['script'])
+        exp_calls, exp_events = ref_lifespan({'comps': case['comps'], 'script': cyc['script'],
+                                              'faults': [f[:2] for f in cyc['faults']]})
+        got_events = [e.get('type') if isinstance(e, dict) else repr(e) for e in sent]
+        if calls != exp_calls or got_events != exp_events or error is not None:
+            raise Violation(
+                'lifespan_sequence',
+                'case=%r\n  lifespan cycle %d of the same app object\n  handler calls: %r\n  documented:    %r\n  events sent: %r\n'
+                '  documented:  %r%s'
+                % (case, k, calls, exp_calls, got_events, exp_events,
+                   ('\n  escaped: %r' % (error,)) if error is not None else ''))
+        failed = any(e.endswith('.failed') for e in exp_events)
+        if failed_before and exp_calls:
+            after_failure = True
+        failed_before = failed_before or failed
+        any_failed = any_failed or failed
+        labels.append('script:' + '+'.join(cyc['script']))
+        labels.extend(exp_events)
+        if not exp_calls:
+            labels.append('no_handler_called')
+    if after_failure:
+        labels.append('cycle_after_failed_cycle')
+    return Info(n_handlers >= 2 and any_failed, sorted(set(labels)))
 
 
 LIFESPAN_SHAPES = [(su, sd) for su in (False, True) for sd in (False, True)]
@@ -622,6 +640,18 @@ class LifespanEnum(Suite):
                     for p, i in sites:
                         for kind in ('app_error', 'http_error'):
                             yield {'comps': comps, 'script': script, 'faults': [[p, i, kind]]}
+                # the same app through a second / third lifespan cycle: a cycle that failed (at any site) or stopped after
+                # startup must not change what the next, clean cycle does
+                full = ['startup', 'shutdown']
+                if n >= 1:
+                    yield {'comps': comps, 'cycles': [{'script': full, 'faults': []}, {'script': full, 'faults': []}]}
+                    yield {'comps': comps, 'cycles': [{'script': ['startup'], 'faults': []}, {'script': full, 'faults': []}]}
+                    for p, i in sites:
+                        yield {'comps': comps, 'cycles': [{'script': full, 'faults': [[p, i, 'app_error']]},
+                                                          {'script': full, 'faults': []}]}
+                        yield {'comps': comps, 'cycles': [{'script': full, 'faults': [[p, i, 'http_error']]},
+                                                          {'script': full, 'faults': [[p, i, 'app_error']]},
+                                                          {'script': full, 'faults': []}]}
 
     def run(self, case):
         return run_lifespan_case(case)
@@ -639,7 +669,15 @@ def _lifespan_case(draw):
     chosen = draw(st.lists(st.sampled_from(sites), min_size=nf, max_size=nf, unique=True)) if nf else []
     faults = [[p, i, draw(st.sampled_from(['app_error', 'http_error']))] for p, i in chosen]
     script = draw(st.sampled_from([['startup', 'shutdown'], ['startup', 'shutdown'], ['startup']]))
-    return {'comps': comps, 'script': script, 'faults': faults}
+    if draw(st.integers(0, 2)) == 0:
+        return {'comps': comps, 'script': script, 'faults': faults}
+    cycles = [{'script': script, 'faults': faults}]
+    for _ in range(draw(st.integers(1, 3))):
+        nf = min(len(sites), draw(st.sampled_from([0, 0, 1, 2])))
+        chosen = draw(st.lists(st.sampled_from(sites), min_size=nf, max_size=nf, unique=True)) if nf else []
+        cycles.append({'script': draw(st.sampled_from([['startup', 'shutdown'], ['startup', 'shutdown'], ['startup']])),
+                       'faults': [[p, i, draw(st.sampled_from(['app_error', 'http_error']))] for p, i in chosen]})
+    return {'comps': comps, 'cycles': cycles}
 
 
 class LifespanRandom(Suite):
